@@ -50,6 +50,9 @@ def _worker_init():
     pass
 
 
+_cov_seen = set()   # per worker: library lines already reported to the main process
+
+
 def _task(payload):
     profile_name, verif_seed, index, keep, tier = payload
     prof = get_profile(profile_name)
@@ -73,6 +76,10 @@ def _task(payload):
         'extra': res.get('extra') or {},
         'distinct_keys': res.get('distinct_keys') or [],
     }
+    new = [tuple(x) for x in (res.get('libcov') or []) if tuple(x) not in _cov_seen]
+    if new:
+        _cov_seen.update(new)
+        out['libcov_new'] = new
     if res['violations'] or keep:
         out['hist'] = {'world': hist['world'], 'ops': hist['ops'], 'meta': hist.get('meta')}
         out['faults'] = res.get('faults')
@@ -93,8 +100,10 @@ class BatchResult:
         self.violating = []      # (index, out)
         self.samples = []
         self.extra = {}
+        self.libcov = set()
 
     def add(self, out):
+        self.libcov.update(tuple(x) for x in out.get('libcov_new') or ())
         self.runs += 1
         self.ops += out['n_ops']
         for k, v in out['counters'].items():
@@ -334,6 +343,9 @@ def check(prop, tier, verif_seed, n_runs, workers, wall_limit, quiet=False):
     cov['violation_classes'] = [vkey_str(k) for k in sorted(by_key)]
     cov['known_findings_hit'] = [k.get('id') for k, _ in known_hits]
     cov['components'] = REAL_STUB
+    from . import libcov
+    if libcov.ENABLED:
+        cov['library_reach'] = libcov.report(res.libcov)
     write_evidence(prop, tier, verif_seed, prof.get('level', 'exploration'), cov, wall,
                    new_violations, prof.get('assumptions', ()))
     for kf, key in known_hits:
